@@ -412,6 +412,7 @@ type Clause struct {
 	Expr  *Expr
 	Text  string
 	Loop  int // for loop clauses
+	At    string // for call-site assertions: "pkg.Type.Method#k"
 	File  string
 	Line  int
 }
@@ -682,10 +683,23 @@ func (cs *ContractSet) parseContractText(file, pkgPath string, lines []string, l
 			// the function returns holding this mutex (e.g. "result.mu")
 			cur.Acquires = append(cur.Acquires, strings.TrimSpace(rest))
 		case "assert":
-			c, err := mk("assert", rest, it.line)
+			// assert label: at Callee#k :: expr      (call-site rule: holds whenever that call is reached)
+			label, body := splitLabel(rest)
+			at := ""
+			if strings.HasPrefix(body, "at ") {
+				if i := strings.Index(body, "::"); i >= 0 {
+					at = strings.TrimSpace(body[3:i])
+					body = strings.TrimSpace(body[i+2:])
+				}
+			}
+			if at == "" {
+				return fmt.Errorf("%s:%d: assert needs 'at Callee#k :: expr'", file, it.line)
+			}
+			c, err := mk("assert", label+": "+body, it.line)
 			if err != nil {
 				return err
 			}
+			c.At = at
 			cur.Asserts = append(cur.Asserts, c)
 		case "specfunc":
 			sf, err := parseSpecFunc(rest)
